@@ -18,9 +18,14 @@ DELTAS = {"delta1": (0.5, 0.01, 0.02), "delta2": (0.03, 0.75, 0.04), "delta3": (
 
 
 def value(i):
+    """distinct decimals of both signs; every fourth one has eight significant digits and lies just below a rounding boundary
+    of the printed precision (x.xx00049: printed x.xx000), every eleventh one a magnitude outside the single-precision range"""
     m = 1.0 + ((i * 13) % 900) / 100.0
     e = (i * 7) % 21 - 10
-    return (-1 if i % 2 else 1) * float(f"{m:.2f}e{e:+d}")
+    if i % 11 == 7:
+        e = -46 if i % 2 else 39
+    tail = "00049" if i % 4 == 3 else ""
+    return (-1 if i % 2 else 1) * float(f"{m:.2f}{tail}e{e:+d}")
 
 
 def atom_fields(i):
@@ -50,7 +55,7 @@ def dx_text(case):
         elif k == "object3":
             out.append(f"object 3 class array type double rank 0 items {n} data follows")
         elif k == "data":
-            out.append(" ".join("%e" % value(i) for i in ln["v"]) + " ")
+            out.append(" ".join("%.8e" % value(i) for i in ln["v"]) + " ")
         elif k == "attribute":
             out.append('attribute "dep" string "positions"')
         elif k == "object4":
@@ -111,7 +116,7 @@ def parse_cube(text, nvalues_max):
         ids = []
         for w in ln.split():
             x = float(w)
-            hit = [i for i, v in table.items() if close(x, v, rel=2e-5, ab=0.0)]
+            hit = [i for i, v in table.items() if x == float("%.5E" % v)]     # equal at the printed precision, exactly
             ids.append(hit[0] if len(hit) == 1 else 0)
         last = j == len(rest) - 1
         obs.append({"k": "vals", "v": ids, "nl": (not last) or ends_nl})
@@ -165,8 +170,8 @@ def run(ctx):
     maxn = 4 if ctx.quick else 6
     ctx.rule = ("every (nx,ny,nz) in 1..MaxN^3 x DX row length {1,2,3} x 0..2 atoms x trailer on/off, each converted by "
                 "the real code; distinct = distinct shape; non-trivial = value count not 1 (chunking exercised)")
-    ctx.assumptions += ["grid values are distinct decimals of both signs with exponents -10..+10, compared at the printed "
-                        "precision (5 significant digits)", "DX files follow the layout APBS writes (no blank lines)"]
+    ctx.assumptions += ["grid values are distinct decimals of both signs with exponents -10..+10 (some -46 / +39), two or eight "
+                        "significant digits, compared exactly at the printed precision (%.5E of the double the DX text denotes)", "DX files follow the layout APBS writes (no blank lines)"]
     ctx.trusted += ["vlib/checks/c18.py dx_text/pqr_text/parse_cube", "TLC 1.8"]
     vals = [value(i) for i in range(1, maxn ** 3 + 7)]
     for a in range(len(vals)):
